@@ -34,6 +34,41 @@ SUBJECT_NAMES = ["case 01", "sub-001", 'q"uote', " lead", "trail ", "subject_nam
 def cases(tier, seed):
     for i in range(1000 if tier == "quick" else 16000):
         yield {"fam": "file", "i": i}
+    for i in range(4 if tier == "quick" else 32):
+        yield {"fam": "locale", "i": i}
+
+
+def locale_roundtrip(ctx, i, prop_kinds=("names_not_recovered_under_non_utf8_locale", "loader_raised_under_non_utf8_locale")):
+    """writer and reader run in an interpreter whose locale encoding is ASCII: non-ASCII subject and group names (the
+    files are UTF-8) must come back unchanged, with their values"""
+    import json
+    import subprocess
+    import tempfile
+
+    from vf import harness
+
+    d = tempfile.mkdtemp(prefix="loc_", dir=os.environ.get("VERIF_TMP"))
+    env = dict(os.environ, LC_ALL="C", LANG="C", PYTHONUTF8="0", PYTHONCOERCECLOCALE="0", PYTHONIOENCODING="utf-8")
+    ctx.count("evaluations")
+    try:
+        p = subprocess.run([harness.PY, "-B"] + harness.own_flags() + ["-m", "vf.helpers.locale_roundtrip", d, str(ctx.seed * 100 + i)], env=env, cwd=harness.VERIF, capture_output=True, text=True, timeout=600, encoding="utf-8")
+        out = json.loads(p.stdout.strip().splitlines()[-1])
+    except Exception as e:  # noqa: BLE001
+        ctx.errors.append({"case": {"fam": "locale", "i": i}, "tb": "locale helper failed: %r" % (e,)})
+        return
+    if out.get("encoding", "").lower().replace("-", "") in ("utf8",):
+        ctx.count("locale_helper_still_utf8")  # this platform coerces the locale: nothing to judge
+        return
+    ctx.count("f:non_utf8_locale_roundtrips")
+    if "ERR" in out:
+        ctx.viol(prop_kinds[1], {"exc": out["ERR"], "locale_encoding": out.get("encoding")}, features={"locale": "C"})
+        return
+    if out["subjects_read"] != out["subjects_written"] or sorted(out["groups_read"]) != sorted(out["groups"]) or any(
+        not pan.same(out["got_sq"].get(s_, {}).get(g), v) for s_, gs in out["expected_sq"].items() for g, v in gs.items()
+    ):
+        ctx.viol(prop_kinds[0], {k: out[k] for k in ("subjects_written", "subjects_read", "groups", "groups_read", "expected_sq", "got_sq")}, features={"locale": "C"})
+        return
+    ctx.nontrivial("locale", i)
 
 
 def setup(ctx):
@@ -44,6 +79,8 @@ def run(case, ctx):
     from panoptica import Panoptica_Aggregator, Panoptica_Statistic
 
     i = case["i"]
+    if case.get("fam") == "locale":
+        return locale_roundtrip(ctx, i)
     r = gen.rng(ctx.seed, "c18", i)
     ng = int(r.integers(1, 6))
     names = [str(x) for x in r.choice(GROUP_NAMES, size=ng, replace=False)]
